@@ -1161,42 +1161,7 @@ func (d *c05Run) scte(in []byte, how string) bool {
 		}
 		ds := sc.Descriptors()
 		for _, x := range ds {
-			x.SCTE35()
-			x.EventID()
-			x.IsEventCanceled()
-			x.HasProgramSegmentation()
-			x.HasDuration()
-			x.Duration()
-			x.IsDeliveryNotRestricted()
-			x.IsWebDeliveryAllowed()
-			x.HasNoRegionalBlackout()
-			x.IsArchiveAllowed()
-			x.DeviceRestrictions()
-			for _, co := range x.Components() {
-				co.ComponentTag()
-				co.PTSOffset()
-			}
-			x.UPIDType()
-			x.UPID()
-			for _, u := range x.MID() {
-				u.UPIDType()
-				u.UPID()
-			}
-			x.TypeID()
-			x.SegmentNumber()
-			x.SegmentsExpected()
-			x.HasSubSegments()
-			x.SubSegmentNumber()
-			x.SubSegmentsExpected()
-			x.StreamSwitchSignalId()
-			x.IsOut()
-			x.IsIn()
-			x.SegmentNum()
-			x.Data()
-			for _, y := range ds {
-				x.CanClose(y)
-				x.Equal(y)
-			}
+			c05QueryDesc(x, ds)
 		}
 		_ = sc.String()
 		_ = fmt.Sprintf("%v", sc)
@@ -1206,7 +1171,74 @@ func (d *c05Run) scte(in []byte, how string) bool {
 		if len(enc) > 0 {
 			scte35.NewSCTE35(append([]byte{0}, enc...))
 		}
+	}) && d.call("scte35 descriptors kept by the caller after the signal dropped them", func() {
+		// a descriptor obtained from the decoded signal is an object of the caller's: it can be
+		// queried like before once the signal's descriptor list has been replaced without it
+		ds := sc.Descriptors()
+		if len(ds) == 0 {
+			return
+		}
+		d.c.Probe("descriptor_queried_after_its_signal_dropped_it")
+		sc.SetDescriptors(ds[1:])
+		c05QueryDesc(ds[0], ds)
+		for _, y := range sc.Descriptors() {
+			c05QueryDesc(y, ds)
+		}
+		st := scte35.NewState()
+		st.ProcessDescriptor(ds[0])
+		st.ProcessDescriptor(ds[0])
+		st.Close(ds[0])
+		_ = sc.String()
+		sc.UpdateData()
+		sc.SetDescriptors(nil)
+		for _, y := range ds {
+			c05QueryDesc(y, ds)
+		}
+		_ = sc.String()
+		sc.UpdateData()
 	})
+}
+
+// c05QueryDesc: every getter of a descriptor, and the two relations against each of `others`.
+func c05QueryDesc(x scte35.SegmentationDescriptor, others []scte35.SegmentationDescriptor) {
+	x.SCTE35()
+	x.EventID()
+	x.IsEventCanceled()
+	x.HasProgramSegmentation()
+	x.HasDuration()
+	x.Duration()
+	x.IsDeliveryNotRestricted()
+	x.IsWebDeliveryAllowed()
+	x.HasNoRegionalBlackout()
+	x.IsArchiveAllowed()
+	x.DeviceRestrictions()
+	for _, co := range x.Components() {
+		co.ComponentTag()
+		co.PTSOffset()
+	}
+	x.UPIDType()
+	x.UPID()
+	for _, u := range x.MID() {
+		u.UPIDType()
+		u.UPID()
+	}
+	x.TypeID()
+	x.SegmentNumber()
+	x.SegmentsExpected()
+	x.HasSubSegments()
+	x.SubSegmentNumber()
+	x.SubSegmentsExpected()
+	x.StreamSwitchSignalId()
+	x.IsOut()
+	x.IsIn()
+	x.SegmentNum()
+	x.Data()
+	for _, y := range others {
+		x.CanClose(y)
+		x.Equal(y)
+		y.CanClose(x)
+		y.Equal(x)
+	}
 }
 
 // unchanged: querying and printing a decoded object are read-only operations;
